@@ -76,7 +76,9 @@ def freq_case(draw, tier):
                          'shift': draw(st.integers(0, 50)),
                          'fmul': draw(st.sampled_from([1, 2, 3, 0]))},
                 'opts': draw(G.opts_strategy(with_pruning=True)),
-                'size': None, 'seed': draw(st.sampled_from([None, 1])),
+                # (size 0 = "do not sample", whatever the number of examples)
+                'size': draw(st.sampled_from([None, None, 0])),
+                'seed': draw(st.sampled_from([None, 1])),
                 'form': 'dict', 'avoid_known': True}
     xs = draw(G.examples_strategy(tier, allow_none=True))
     form = draw(st.sampled_from(['list', 'dict', 'dictfreq']))
